@@ -73,7 +73,7 @@ class Prop:
         jobs = self.jobs(tier, seed)
         if only:
             jobs = [j for j in jobs if only in getattr(j, "name", str(j))]
-        logdir = os.path.join(kanirun.WORK, "logs", self.pid + "-" + tier)
+        logdir = os.path.join(kanirun.WORK, "logs" + kanirun.ALT, self.pid + "-" + tier)
         kjobs = [j for j in jobs if isinstance(j, Job)]
         other = [j for j in jobs if not isinstance(j, Job)]
         results = []
@@ -92,7 +92,7 @@ class Prop:
                     x["detail"] = "not replayed (another job of this run was); " + x["detail"]
                     continue
                 attempts += 1
-                root = os.path.join(VERIF, "replays", self.pid)
+                root = os.path.join(VERIF, "replays" + kanirun.ALT, self.pid)
                 try:
                     ok, art, detail = kanirun.replay(x["job"], root)
                 except Exception as e:  # noqa
@@ -316,7 +316,7 @@ import smtengine  # noqa: E402
 
 
 def c14_k(name, timeout=1800, witness=False, allowed=()):
-    return Job("vouched", "c14::" + name, timeout=timeout, mem_gb=10, kind="witness" if witness else "proof", covers=set(allowed),
+    return Job("vouched", "c14::" + name, timeout=timeout, mem_gb=10, kind="witness" if witness else "proof", covers=set(allowed), stubbing=True,
                bounds="VouchedTime::new through the public API: concrete calendar minute, symbolic second/nanosecond, symbolic u64 base time, voucher produced for a symbolic (possibly different) value")
 
 
@@ -347,7 +347,7 @@ def c08_job(S, block, witness=False, timeout=1500):
     m = max(block, 2)
     return Job("stream", "c08::c08_step_s%d_b%d%s" % (S, block, "_witness" if witness else ""),
                unwind_fns={r"StreamChunker::pump": 3, r"ByteArena::read_n_impl": 6, r"find_stuff_sequence": m + 1},
-               timeout=timeout, mem_gb=14, kind="witness" if witness else "proof",
+               timeout=timeout, mem_gb=14, kind="witness" if witness else "proof", stubbing=True,
                bounds="io_block_size=%d; arbitrary chunker state (carry-over buffer of 0..%d arbitrary bytes, arbitrary offset <= 2^48), remaining stream so that buffer+rest <= %d bytes, reader schedule: 2 symbolic calls (short reads of 1..3 bytes, <=1 interrupted) then full reads; 8-byte arena chunks" % (block, m, S),
                **ARENA8)
 
